@@ -444,7 +444,7 @@ func runC11(cfg *runCfg) (*Summary, error) {
 		// D44: a JSON number that does not convert to its destination (a negative one
 		// into an unsigned field) makes strconv allocate an error value inside
 		// vector.Node.Uint although the decode succeeds (known finding); the documents
-		// of the main stream carry non-negative numbers only
+		// of the main stream carry non-negative numbers within int64 only
 		stripMinus(j.doc)
 		// D26: default(x) with a Go-typed argument allocates (known finding); keep it out of the main stream
 		if containsGoTypedDefault(j.Prog) {
@@ -558,6 +558,10 @@ func stripMinus(v *JV) {
 	}
 	if v.K == "num" {
 		v.T = strings.TrimPrefix(v.T, "-")
+		if len(v.T) >= 19 && !strings.Contains(v.T, ".") {
+			// beyond int64: does not convert to signed fields either
+			v.T = v.T[:9]
+		}
 	}
 	for _, x := range v.Xs {
 		stripMinus(x)
